@@ -802,31 +802,39 @@ Section MergedNormal.
   Lemma set_normal_is (L L' : Loop K) : loop_set_normal L = Ok L' -> lnormal L' = corner_normal (verts L) /\ verts L' = verts L.
   Proof. unfold loop_set_normal. destruct (verts L) as [|a [|b [|c l]]] eqn:E; try discriminate. intros H; inversion H; subst. cbn. split; [reflexivity | exact E]. Qed.
   Lemma push_normal (L L' : Loop K) (p : V) : loop_push L p = Ok L' ->
-    lnormal L' = if Nat.eqb (llen L') 3 then corner_normal (verts L') else lnormal L.
+    lnormal L' = if Nat.eqb (llen L') 3 then corner_normal (verts L') else if Nat.ltb (llen L') 3 then vzero else lnormal L.
   Proof.
-    unfold loop_push, loop_push_gen, loop_push_gen2. cbn [negb andb]. destruct (valid_to_add L p); cbn [rbind]; try discriminate.
+    unfold loop_push. destruct (valid_to_add L p); cbn [rbind]; try discriminate.
     match goal with |- rbind ?r _ = _ -> _ => destruct r as [vs| |] end; cbn [rbind]; try discriminate.
     destruct (Nat.eqb (length vs) 3) eqn:E3; intros H.
     - apply set_normal_is in H. cbn [set_verts verts] in H. destruct H as [Hn Hv]. unfold llen. rewrite Hv, E3, Hn. reflexivity.
-    - inversion H; subst. unfold llen. cbn [set_verts verts lnormal]. rewrite E3. reflexivity.
+    - destruct (Nat.ltb (length vs) 3) eqn:E4; inversion H; subst; unfold llen; cbn [set_verts set_normal_field verts lnormal]; rewrite E3, E4; reflexivity.
   Qed.
+  (** (since the fix of push/close the cached normal is reset to zero whenever fewer than three vertices are left:
+      the loop pushed onto must satisfy that too, as every loop built from [loop_new] does) *)
   Lemma push_seq_normal (s : N) : forall (ps : list V) (L L' : Loop K), push_seq s L ps = Ok L' -> llen L' = llen L + length ps ->
+    (llen L < 3 -> lnormal L = vzero) ->
     lnormal L' = if Nat.leb 3 (llen L) then lnormal L else if Nat.leb 3 (llen L') then corner_normal (verts L') else lnormal L.
   Proof.
     induction ps as [|p tl IH]; intros L L'; cbn [push_seq length].
-    - intros H _. inversion H; subst. destruct (Nat.leb 3 (llen L')); reflexivity.
-    - destruct (unwrap s (loop_push L p)) as [L1| |] eqn:E; cbn [rbind]; try discriminate. apply unwrap_ok in E. intros H Hlen.
+    - intros H _ _. inversion H; subst. destruct (Nat.leb 3 (llen L')); reflexivity.
+    - destruct (unwrap s (loop_push L p)) as [L1| |] eqn:E; cbn [rbind]; try discriminate. apply unwrap_ok in E. intros H Hlen Hz.
       destruct (push_len _ _ _ E) as (H1 & H2 & H3). destruct (push_seq_len _ _ _ _ H) as (I1 & I2).
       assert (E1 : llen L1 = S (llen L)) by lia. assert (E2 : llen L' = llen L1 + length tl) by lia.
-      rewrite (IH _ _ H E2). rewrite (push_normal _ _ _ E). rewrite E1.
+      assert (Hz1 : llen L1 < 3 -> lnormal L1 = vzero).
+      { intros Hlt. rewrite (push_normal _ _ _ E). assert (C : Nat.eqb (llen L1) 3 = false) by (apply Nat.eqb_neq; lia). rewrite C.
+        assert (D : Nat.ltb (llen L1) 3 = true) by (apply Nat.ltb_lt; lia). rewrite D. reflexivity. }
+      rewrite (IH _ _ H E2 Hz1). rewrite (push_normal _ _ _ E). rewrite E1.
       destruct (Nat.leb_spec 3 (llen L)) as [A|A].
       + assert (B : Nat.leb 3 (S (llen L)) = true) by (apply Nat.leb_le; lia). rewrite B.
-        assert (C : Nat.eqb (S (llen L)) 3 = false) by (apply Nat.eqb_neq; lia). rewrite C. reflexivity.
+        assert (C : Nat.eqb (S (llen L)) 3 = false) by (apply Nat.eqb_neq; lia). rewrite C.
+        assert (D : Nat.ltb (S (llen L)) 3 = false) by (apply Nat.ltb_ge; lia). rewrite D. reflexivity.
       + destruct (Nat.eqb_spec (S (llen L)) 3) as [C|C].
         * assert (B : Nat.leb 3 (S (llen L)) = true) by (apply Nat.leb_le; lia). rewrite B.
           assert (D : Nat.leb 3 (llen L') = true) by (apply Nat.leb_le; lia). rewrite D.
           rewrite (I2 E2). symmetry. apply corner_normal_app. fold (llen L1). lia.
-        * assert (B : Nat.leb 3 (S (llen L)) = false) by (apply Nat.leb_gt; lia). rewrite B. reflexivity.
+        * assert (B : Nat.leb 3 (S (llen L)) = false) by (apply Nat.leb_gt; lia). rewrite B.
+          assert (D : Nat.ltb (S (llen L)) 3 = true) by (apply Nat.ltb_lt; lia). rewrite D. rewrite (Hz A). reflexivity.
   Qed.
   Lemma merge_normal : forall count (P : Poly K) (ret : Loop K) processed il iv (L : Loop K),
     merge_clean false P count ret processed il iv = true -> merge_holes false P count ret processed il iv = Ok L ->
@@ -841,7 +849,7 @@ Section MergedNormal.
       destruct (rebuild false (lnormal (pouter P)) (verts ret) 0 me hole iv' loop_new) as [aux| |] eqn:Er; try discriminate.
       cbn [rbind]. intros H HL. apply andb_prop in H. destruct H as [Hl Hc]. apply Nat.eqb_eq in Hl.
       rewrite rebuild_is_push_seq in Er by exact En.
-      pose proof (push_seq_normal _ _ _ _ Er) as Hn. cbn [llen verts loop_new length lnormal Nat.leb] in Hn. specialize (Hn Hl).
+      pose proof (push_seq_normal _ _ _ _ Er) as Hn. cbn [llen verts loop_new length lnormal Nat.leb] in Hn. specialize (Hn Hl (fun _ => eq_refl)).
       right. destruct (IH _ _ _ _ _ _ Hc HL) as [[_ E]|E]; [subst L; exact Hn | exact E].
   Qed.
   Theorem merged_normal_is_corner (P : Poly K) (L : Loop K) : closed_loop_clean false P = true -> poly_get_closed_loop P = Ok L ->
@@ -905,14 +913,15 @@ Section MergedNormalR.
   (** a successful [close] needs three vertices and a non-zero normal *)
   Lemma close_ok_facts (L : Loop R) : snd (loop_close L) = Ok tt -> vis_zero (lnormal L) = false /\ (3 <= llen L)%nat.
   Proof.
-    unfold loop_close. destruct (Nat.ltb (llen L) 3) eqn:E3; [discriminate|]. apply Nat.ltb_ge in E3.
-    destruct (is_collinear _ _ _) as [c1| |]; cbn [snd]; try discriminate.
-    set (L1 := if c1 then set_verts L (removelast (verts L)) else L).
-    assert (N1 : lnormal L1 = lnormal L) by (unfold L1; destruct c1; reflexivity).
+    unfold loop_close. destruct (lclosed L); [discriminate|]. destruct (Nat.ltb (llen L) 3) eqn:E3; [discriminate|]. apply Nat.ltb_ge in E3.
+    destruct (pop_redundant (verts L) (llen L)) as [vs1 r1]. destruct r1 as [u1| |]; cbn [snd]; try discriminate.
+    destruct (Nat.ltb (length vs1) 3); [discriminate|].
+    set (L1 := set_verts L vs1).
     destruct (valid_to_add L1 _) as [u| |]; cbn [snd]; try discriminate.
-    destruct (is_collinear _ _ _) as [c2| |]; cbn [snd]; try discriminate.
-    set (L2 := if c2 then set_verts L1 (tl (verts L1)) else L1).
-    assert (N2 : lnormal L2 = lnormal L) by (unfold L2; destruct c2; cbn [set_verts lnormal]; exact N1).
+    destruct (drop_first_redundant vs1 (length vs1)) as [vs2 r2]. destruct r2 as [u2| |]; cbn [snd]; try discriminate.
+    destruct (Nat.ltb (length vs2) 3); [discriminate|].
+    set (L2 := set_verts L1 vs2).
+    assert (N2 : lnormal L2 = lnormal L) by reflexivity.
     set (L3 := mkLoop (verts L2) (lnormal L2) true (larea L2) (lperim L2)).
     destruct (loop_set_area L3) as [L4| |] eqn:E4; cbn [snd]; try discriminate. intros _.
     unfold loop_set_area in E4. cbn [lclosed negb] in E4. change (lnormal L3) with (lnormal L2) in E4. rewrite N2 in E4.
